@@ -60,6 +60,22 @@ type Node struct {
 	// Inc is a component call <template include="comp.vuego" n1="s1" …></template>: its props live
 	// in a scope of their own that is opened and closed again; none of them is visible afterwards.
 	Inc *Inc `json:"inc,omitempty"`
+	// Set binds a name in the scope of the instance it stands in, by the plain attribute form
+	// <template NAME="VAL"></template> (eval_template.go: "set them in current scope"; not the
+	// bound :NAME form, which is deliberately written through to the enclosing scope). It is
+	// always the LAST node of a loop body, so nothing in the same instance reads the name after
+	// it: asserted is only that the binding ends with its instance - the instances of later
+	// items and what follows the loop read the name as if the setter did not exist.
+	Set *Setter `json:"set,omitempty"`
+}
+
+// Setter: with If, <b data-m=ID v-if="cond"><template NAME="VAL"></template></b>; without,
+// the bare <template NAME="VAL"></template> (no element output).
+type Setter struct {
+	ID   string `json:"id,omitempty"`
+	Name string `json:"name"`
+	Val  string `json:"val"`
+	If   *Cond  `json:"if,omitempty"`
 }
 
 // Inc is an include with static props (comp.vuego prints a fixed marked element).
@@ -263,6 +279,7 @@ func hasInc(ns []Node) bool {
 		switch {
 		case n.Inc != nil:
 			return true
+		case n.Set != nil:
 		case n.Loop != nil:
 			if hasInc(n.Loop.Body) || (n.Loop.Else != nil && hasInc(n.Loop.Else.Body)) {
 				return true
